@@ -594,7 +594,8 @@ fn zoo_quadrs<X: QuadRS>(ctx: &mut Ctx) {
     zoo.extend(variants("From<QVector::default()>", X::from(QVector::default())));
     for &n in &SIZES {
         for kind in 0..4u8 {
-            if n > 600 && kind < 2 {
+            // constant vectors: the small sizes and the ones that fill whole superblocks (counters of 2048 and more)
+            if n > 600 && n < 4096 && kind < 2 {
                 continue;
             }
             zoo.push((format!("new({n} quads, kind {kind})"), X::new_u8(&quads_of(n, kind))));
@@ -778,6 +779,8 @@ fn zoo_tree<X: Tree>(ctx: &mut Ctx) {
     add(&mut zoo, "from(vec![0])", build(mk(vec![0]), 1), 0);
     add(&mut zoo, "from(vec![MAX])", build(mk(vec![cap]), 1), cap);
     add(&mut zoo, "from(vec![5; 70])", build(mk(vec![5; 70]), 1), 5);
+    zoo.push(("from(vec![2; 5000])".into(), build(mk(vec![2; 5000]), 1), 2));
+    zoo.push(("from(vec![7; 9000])".into(), build(mk(vec![7; 9000]), 2), 7));
     add(&mut zoo, "from([0,3,4,15,16,255,1,0])", build(mk(vec![0, 3, 4, 15, 16, 255, 1, 0]), 1), 255);
     add(&mut zoo, "from(wide values)", build(mk(vec![0, 1 << (X::T::BITS / 2), 1 << (X::T::BITS - 1), tmax - 1, tmax, 7]), 1), cap);
     for &n in &SIZES[3..] {
